@@ -125,6 +125,11 @@ impl<'de, 'a> SeqAccess<'de> for FieldSeq<'a> {
         self.left -= 1;
         seed.deserialize(RecDe { field: true, ..self.de }).map(Some)
     }
+    /// exact number of REMAINING elements, as length-prefixed / fixed-arity binary formats report it (bincode, postcard,
+    /// `serde::de::value::SeqDeserializer`, `serde_json::Value`); serde_json's text reader reports None
+    fn size_hint(&self) -> Option<usize> {
+        Some(self.left)
+    }
 }
 
 macro_rules! de_refuse {
